@@ -1,4 +1,4 @@
-CONSTANTS MaxRules = 2  MaxOps = 4  MaxC = 3  Times = {5, 15}
+CONSTANTS RuleIdx <- AllRules  MaxRules = 2  MaxOps = 4  MaxC = 3  Times = {5, 15}
 INIT Init
 NEXT Next
 CONSTRAINT Bound
